@@ -21,7 +21,7 @@ func init() {
 				clKeyOpsAlwaysSearch(c)
 				clFindPathRecordsEachLevel(c)
 			})
-			c.Do("C09.c", "L11 refresh copies before dropping the session", 2, func() { clRefreshCopies(c); clSkiplistRefreshOrder(c) })
+			c.Do("C09.c", "L11 refresh copies before dropping the session", 2, func() { clRefreshCopies(c); clSkiplistRefreshOrder(c); clBuiltinRefreshNotOnStore(c) })
 			c.Do("C09.d", "L5 visibility decision table", 2, func() { clVisibilityTable(c) })
 		},
 	})
